@@ -40,6 +40,8 @@ package state
 //@   ensures [lanes] forall j int :: 0 <= j && j < len(lanes) ==> abortedLanes[lanes[j]]
 //@   loop 0: invariant forall k int :: {abortedLanes[k]} abortedLanes[k] == old(abortedLanes[k])
 //@   loop 1: invariant forall k int :: {abortedLanes[k]} abortedLanes[k] == old(abortedLanes[k])
+//@   loop 1: step [live-by-effective-status] forall k int :: {hasLive[k]} hasLive[k] && !old(hasLive[k]) ==> isSource(effSt(t))
+//@   loop 1: step [dead-by-effective-status] forall k int :: {hasDead[k]} hasDead[k] && !old(hasDead[k]) ==> !isSource(effSt(t))
 //@   loop 5: invariant -1 <= idx5 && idx5 < len(lanes)
 //@   loop 5: invariant forall k int :: {abortedLanes[k]} old(abortedLanes[k]) ==> abortedLanes[k]
 //@   loop 5: invariant forall j int :: 0 <= j && j <= idx5 ==> abortedLanes[lanes[j]]
@@ -53,10 +55,11 @@ package state
 // failed (so the change cannot be seen in Error while abortable tasks are still pending), and a normal
 // return moves the task only along Doing->Done, Abort->Undo (it had finished), Undoing->Undone
 //@ func (*TaskRunner).run$1
-//@   props C01 C03
+//@   props C01 C03 C04
 //@   guard call Errorf: [error-verbatim] arg0 == t && arg1const
 //@   guard call SetStatus: [error-after-abort] arg1 == ErrorStatus ==> called("(*TaskRunner).abortLanes")
 //@   guard call SetStatus: [outcome] arg0 == t && ((stOf(t) == DoingStatus && arg1 == DoneStatus) || (stOf(t) == AbortStatus && arg1 == UndoStatus) || (stOf(t) == UndoingStatus && arg1 == UndoneStatus) || arg1 == ErrorStatus)
+//@   guard call (*TaskRunner).abortLanes: [not-when-stopping] !r.stopped
 //@   guard call (*TaskRunner).abortLanes: [own-lanes] arg1 == t.state.changes[t.change] && (len(t.lanes) != 0 ==> arg2 == t.lanes) && (len(t.lanes) == 0 ==> len(arg2) == 1 && arg2[0] == 0)
 
 //@ func (*TaskRunner).abortLanes
